@@ -154,10 +154,10 @@ fn candidates(sc: &Scenario) -> Vec<Scenario> {
             for (j, e) in es.iter().enumerate() {
                 if let EditOp::Put { path, node } = e {
                     let mut simpler = Vec::new();
-                    if let crate::tree::NodeKind::File { size, cseed } = node.kind {
+                    if let crate::tree::NodeKind::File { size, cseed, period } = node.kind {
                         if size > 1 {
                             let mut n = node.clone();
-                            n.kind = crate::tree::NodeKind::File { size: size / 2, cseed };
+                            n.kind = crate::tree::NodeKind::File { size: size / 2, cseed, period };
                             simpler.push(n);
                         }
                     }
